@@ -310,10 +310,52 @@ def file_discovery_agreement(ctx, cr):
         sample={"predicates": {p: len(v) for p, v in sites.items()}})
 
 
+def merge_operand_order(ctx, cr):
+    """the plain and the structured path join the parameters with each data file through the same call shape — parameters.merge(data
+    file) — so that a list-rooted document is concatenated in the same order (and a collision is reported for the same key) whichever
+    path evaluates it: at every merge site where exactly one operand reads DataFile.path_value, that operand is the ARGUMENT"""
+    rule = "R-C17-merge-operand-order"
+    from rules.c04 import receiver_field
+    sites = []
+    for k, f in sorted(cr.fns.items()):
+        if f.get("file", "").endswith("_tests.rs") or not k.startswith(("commands::", "<commands::")):
+            continue
+        for bi, t in M.iter_calls(f):
+            if t["fn"].get("key") != MERGE:
+                continue
+            sides = []
+            for i in (0, 1):
+                pl = M.op_place(t["args"][i])
+                reads = False
+                if pl is not None:
+                    calls, consts, locs = flow.backward_slice(f, M.place_local(pl))
+                    for c in calls:
+                        if c["args"] and receiver_field(cr, f, c["args"][0]) == "path_value":
+                            reads = True
+                    # a direct move/copy of the field
+                    for bi2, si, st in M.iter_stmts(f):
+                        rv = st.get("rv")
+                        if rv and isinstance(st["p"], int) and st["p"] in locs:
+                            src = M.op_place(rv["o"]) if "o" in rv else rv.get("p")
+                            if src is not None and not isinstance(src, int) and any(isinstance(pr, list) and pr[0] == "f" and pr[2] == "path_value" for pr in M.place_projs(src)):
+                                reads = True
+                sides.append(reads)
+            sites.append((k, t.get("ln"), sides, f))
+    mixed = [x for x in sites if x[2][0] != x[2][1]]
+    if len(mixed) < 2:
+        ctx.lost(rule, rule + ":floor", "merge sites joining parameters with a data file: %d (floor 2: plain and structured path)" % len(mixed))
+    for i, (k, ln, sides, f) in enumerate(mixed):
+        ok = sides == [False, True]
+        ctx.ob(rule, "%s:%s#%d" % (rule, k, i), ok, "parameters.merge(data file)" if ok else
+               "here the data file is the receiver and the parameters the argument, the other path(s) do it the other way round: list-rooted documents are concatenated in the opposite order on this path", fn=f, line=ln or 0,
+               sample={"site": k, "line": ln} if i == 0 else None)
+
+
 def run(ctx):
     merge_table(ctx, ctx.lib)
     errors_propagate(ctx, ctx.lib)
     params_reach(ctx, ctx.lib)
     params_loop_invariant(ctx, ctx.lib)
     file_discovery_agreement(ctx, ctx.lib)
+    merge_operand_order(ctx, ctx.lib)
     ctx.assumptions += ["IndexMap::contains_key / insert behave as documented (dependency)"]
